@@ -23,11 +23,11 @@ static EVP_PKEY *load_pem(const char *pem, int priv)
 	return k;
 }
 
-int vk_load(void)
+static int load_index(const char *sub, vk_t *pool, int *pn)
 {
 	char path[512];
 	json_error_t err;
-	snprintf(path, sizeof path, "%s/keys/INDEX.json", vf_dir());
+	snprintf(path, sizeof path, "%s/keys/%sINDEX.json", vf_dir(), sub);
 	json_t *idx = json_load_file(path, 0, &err);
 	if (!idx) {
 		fprintf(stderr, "vk_load: %s: %s\n", path, err.text);
@@ -36,20 +36,20 @@ int vk_load(void)
 	size_t i;
 	json_t *e;
 	json_array_foreach(idx, i, e) {
-		vk_t *k = &vk_pool[vk_n++];
+		vk_t *k = &pool[(*pn)++];
 		snprintf(k->name, sizeof k->name, "%s", json_string_value(json_object_get(e, "name")));
 		snprintf(k->kty, sizeof k->kty, "%s", json_string_value(json_object_get(e, "kty")));
 		if (json_object_get(e, "crv"))
 			snprintf(k->crv, sizeof k->crv, "%s", json_string_value(json_object_get(e, "crv")));
 		k->bits = json_integer_value(json_object_get(e, "bits"));
 		k->pss = json_is_true(json_object_get(e, "pss"));
-		snprintf(path, sizeof path, "%s/keys/%s.priv.pem", vf_dir(), k->name);
+		snprintf(path, sizeof path, "%s/keys/%s%s.priv.pem", vf_dir(), sub, k->name);
 		k->priv_pem = vf_readfile(path, NULL);
-		snprintf(path, sizeof path, "%s/keys/%s.pub.pem", vf_dir(), k->name);
+		snprintf(path, sizeof path, "%s/keys/%s%s.pub.pem", vf_dir(), sub, k->name);
 		k->pub_pem = vf_readfile(path, NULL);
-		snprintf(path, sizeof path, "%s/keys/%s.priv.jwk", vf_dir(), k->name);
+		snprintf(path, sizeof path, "%s/keys/%s%s.priv.jwk", vf_dir(), sub, k->name);
 		k->priv_jwk = json_load_file(path, 0, &err);
-		snprintf(path, sizeof path, "%s/keys/%s.pub.jwk", vf_dir(), k->name);
+		snprintf(path, sizeof path, "%s/keys/%s%s.pub.jwk", vf_dir(), sub, k->name);
 		k->pub_jwk = json_load_file(path, 0, &err);
 		if (!k->priv_pem || !k->pub_pem || !k->priv_jwk || !k->pub_jwk) {
 			fprintf(stderr, "vk_load: incomplete key %s\n", k->name);
@@ -63,8 +63,15 @@ int vk_load(void)
 		}
 	}
 	json_decref(idx);
-	return vk_n;
+	return *pn;
 }
+
+int vk_load(void) { return load_index("", vk_pool, &vk_n); }
+
+/* EC keys on curves outside JOSE (brainpool, small NIST curves): kept apart from the pool, used by C09 only */
+vk_t vk_extra[16];
+int vk_extra_n;
+int vk_load_extra(void) { return vk_extra_n ? vk_extra_n : load_index("extra/", vk_extra, &vk_extra_n); }
 
 vk_t *vk_get(const char *name)
 {
